@@ -70,9 +70,24 @@ Fixpoint raws_and_msgs (h : list fev) (obs : list ostep) : list (Z * list msg) :
   | _, _ => []
   end.
 
+(* An axis event that transmits nothing (duplicate suppression) is justified only if what the receiver already holds is right
+   for the new position: the last transmitted message must pass the same test for this raw value (nothing transmitted yet:
+   nothing to compare).  This is the "(previous value, new value) pair" part of the property's quantifier. *)
+Fixpoint c06_scan (g : c06cfg) (last : option msg) (l : list (Z * list msg)) (i : nat) : list nat :=
+  match l with
+  | [] => []
+  | (raw, ms) :: r =>
+      let ok := match ms, last with
+                | [], Some m => c06_event_ok g raw [m]
+                | _, _ => c06_event_ok g raw ms
+                end in
+      let last' := match ms with m :: _ => Some m | [] => last end in
+      (if ok then [] else [i]) ++ c06_scan g last' r (S i)
+  end.
+
 Definition c06_failures (k : c06case) : list nat :=
   let l := raws_and_msgs (ac_events (c6_k k)) (ac_obs (c6_k k)) in
-  indexed_failures (fun p => c06_event_ok (c6_g k) (fst p) (snd p)) 0 l ++
+  c06_scan (c6_g k) None l 0 ++
   (if c06_monotone (c6_g k) l then [] else [length l]).
 Definition c06_mismatch (k : c06case) : option nat := abs_mismatch (c6_k k).
 Definition c06_transmitted (k : c06case) : nat :=
